@@ -13,6 +13,7 @@ impl: loki.transformations.array_indexing - resolve_vector_notation (option sets
 Every program belongs to one population (family of section forms + code class, lib_fm_sanitise.SecGen) and one
 option set; violation keys are  sec:<option>:<population>:<form descriptor>:<failure signature>.
 """
+import os
 import time
 
 from .. import lib_fm as F
@@ -39,6 +40,8 @@ POPS.update({
     'loopmatch': dict(family='disjoint', loopmatch=True),     # section inside a DO loop with the same bounds
 })
 FEATURES = ('call', 'select', 'exitcycle', 'while')
+
+FRONTEND_RAISED = {}     # signature -> first source text
 
 
 def apply_opt(r, opt):
@@ -75,7 +78,13 @@ def apply_opt(r, opt):
 
 def transform(text, prog, workdir):
     from loki import Sourcefile
-    src = Sourcefile.from_source(text)
+    try:
+        src = Sourcefile.from_source(text)
+    except Exception as ex:  # pylint: disable=broad-except
+        # a frontend failure is not a statement about the transformation (C01/C02 territory): counted, not judged
+        sig = F.failure_signature('frontend-raised', f'{type(ex).__name__}: {ex}')
+        FRONTEND_RAISED.setdefault(sig, text)
+        raise F.NotApplicable(sig) from ex
     for r in src.all_subroutines:
         apply_opt(r, prog['opt'])
     return [('kmod.f90', src.to_fortran())]
@@ -83,6 +92,10 @@ def transform(text, prog, workdir):
 
 def gen_cases(ctx, n):
     cells = [(o, p) for o in OPT_DOC for p in POPS for _ in range(WEIGHT.get(o, 1))]
+    if os.environ.get('VERIF_POPS'):      # development only: restrict the populations / options
+        cells = [c for c in cells if c[1] in os.environ['VERIF_POPS'].split(',')]
+    if os.environ.get('VERIF_OPTS'):
+        cells = [c for c in cells if c[0] in os.environ['VERIF_OPTS'].split(',')]
     ctx.rng.shuffle(cells)
     cases = []
     for i in range(n):
@@ -98,7 +111,6 @@ def gen_cases(ctx, n):
 
 
 def run(ctx):
-    import os
     dev = int(os.environ.get('VERIF_CASES', '0') or 0)     # development only: fewer cases
     if ctx.replay:
         c = ctx.replay['case']
@@ -126,6 +138,7 @@ def run(ctx):
     ctx.cover['programs_per_option_and_population'] = per_cell
     ctx.cover['forms_exercised'] = sorted({cases[i][0]['pop'] + ':' + cases[i][0]['form'] for i in legal})
     ctx.cover['options'] = OPT_DOC
+    ctx.cover['frontend_raised_not_judged'] = {k: v[:1500] for k, v in FRONTEND_RAISED.items()}
     if results:
         ctx.sample({'program': results[0]['text'], 'option': cases[0][0].get('opt'), 'inputs': cases[0][1][:1]})
     ctx.assumptions += [
